@@ -2012,8 +2012,10 @@ func (pid *PID) dispatchOne(received *ReceiveContext, now time.Time) {
 	case *commands.Panicking:
 		pid.handlePanicking(received.Sender(), msg)
 	case *PausePassivation:
+		verifhook.At("pv.ctl", &pid.schedState, 1, 0)
 		pid.pausePassivation()
 	case *ResumePassivation:
+		verifhook.At("pv.ctl", &pid.schedState, 2, 0)
 		pid.resumePassivation()
 	case *commands.AsyncRequest:
 		pid.handleAsyncRequest(received, msg, now)
@@ -2608,6 +2610,7 @@ func (pid *PID) freeChildren(ctx context.Context) error {
 //
 // Returns true when the actor was successfully passivated.
 func (pid *PID) tryPassivation(reason string) bool {
+	verifhook.At("pv.enter", &pid.schedState, 0, 0)
 	if pid.passivationStrategy == nil || isLongLivedPassivationStrategy(pid.passivationStrategy) {
 		return false
 	}
@@ -2634,6 +2637,7 @@ func (pid *PID) tryPassivation(reason string) bool {
 	pid.setState(passivatingState, true)
 	defer pid.setState(passivatingState, false)
 
+	verifhook.At("pv.lock", &pid.schedState, 0, 0)
 	pid.stopLocker.Lock()
 	defer pid.stopLocker.Unlock()
 
@@ -2642,6 +2646,7 @@ func (pid *PID) tryPassivation(reason string) bool {
 		return false
 	}
 
+	verifhook.At("pv.locked", &pid.schedState, 0, 0)
 	pid.unregisterPassivation()
 
 	ctx := context.Background()
@@ -3158,6 +3163,7 @@ func (pid *PID) childAddress(name string) *address.Address {
 
 // suspend puts the actor in a suspension mode.
 func (pid *PID) suspend(reason string) {
+	verifhook.At("pv.suspend", &pid.schedState, 0, 0)
 	pid.logger.Debugf("actor=%s going into suspension mode", pid.Name())
 	pid.setState(suspendedState, true)
 	// increment suspension count
